@@ -9,7 +9,10 @@
 //! ops:  `case <k>` · `spawn <i> <name|->` · `spawnfail <i> <name|->` (pre_start fails) ·
 //!       `collide <i> <name|-> <j>` (the new cell is handed the id of the live actor `j`) ·
 //!       `mon <i>` (spawn a listener actor, not yet subscribed) · `monitor <i>` · `demonitor <i>` ·
-//!       `stop <i>` · `kill <i>`
+//!       `stop <i>` · `kill <i>` ·
+//!       `wina <i> <name|->` (the spawn runs on a helper OS thread and is parked at the schedule point
+//!       `new.reg_pid`, between the two registry operations of `ActorCell::new`; res=win, or dup if it never got
+//!       there) · `winb <i>` (the helper is released: pid insert, start) · `winc <i>` (kill it, wait)
 //! obs:  `res=<ok|dup|pid|start|unit> | names=<n:i,…|-> pids=<i,…|-> st=<i:status,…|-> ev=<m>S<i>/<m>T<i>,…|->`
 
 use std::collections::BTreeMap;
@@ -18,6 +21,7 @@ use std::time::Duration;
 
 use hutil::{Args, Log, Rng, Stats};
 use ractor::registry;
+use ractor::verif::{self, ThreadCtl, ThreadPhase};
 use ractor::{Actor, ActorCell, ActorId, ActorProcessingErr, ActorRef, SpawnErr, SupervisionEvent};
 
 type EvLog = Arc<Mutex<Vec<(usize, bool, ActorId)>>>;
@@ -60,6 +64,16 @@ struct World {
     next: usize,
     evs: EvLog,
     case: u64,
+    /// an `ActorCell::new` parked between its name insert and its pid insert, on a helper OS thread
+    win: Option<Win>,
+    helpers: Vec<std::thread::JoinHandle<()>>,
+}
+
+struct Win {
+    i: usize,
+    ctl: Arc<ThreadCtl>,
+    rx: std::sync::mpsc::Receiver<Option<ActorCell>>,
+    handle: std::thread::JoinHandle<()>,
 }
 
 fn nm(case: u64, n: u64) -> String {
@@ -77,6 +91,8 @@ impl World {
             .find(|(_, c)| c.get_id() == id)
             .map(|(k, _)| k.to_string())
             .or_else(|| self.failed_ids.iter().find(|(_, d)| **d == id).map(|(k, _)| k.to_string()))
+            // a cell nobody has been handed yet: the one parked inside its constructor
+            .or_else(|| self.win.as_ref().map(|w| w.i.to_string()))
             .unwrap_or("?".into())
     }
     fn view(&self) -> String {
@@ -112,6 +128,19 @@ impl World {
     }
 
     async fn reset(&mut self) {
+        if let Some(w) = self.win.take() {
+            w.ctl.release();
+            if let Ok(Some(c)) = w.rx.recv_timeout(Duration::from_secs(20)) {
+                c.kill();
+            }
+            let _ = w.handle.join();
+        }
+        for (_, c) in self.cells.iter() {
+            c.kill();
+        }
+        for h in std::mem::take(&mut self.helpers) {
+            let _ = h.join();
+        }
         for (_, c) in std::mem::take(&mut self.cells) {
             registry::pid_registry::demonitor(c.get_id());
             c.kill();
@@ -187,6 +216,84 @@ impl World {
                 }
                 "unit".into()
             }
+            "wina" => {
+                let i: usize = ws[1].parse().unwrap();
+                let n = name(ws[2]).map(|n| nm(self.case, n));
+                let ctl = ThreadCtl::new();
+                let (tx, rx) = std::sync::mpsc::channel();
+                let (ctl2, log2) = (ctl.clone(), self.evs.clone());
+                let handle = std::thread::spawn(move || {
+                    let rt = tokio::runtime::Builder::new_current_thread().enable_all().start_paused(true).build().unwrap();
+                    verif::thread_register(ctl2.clone());
+                    let r = rt.block_on(Actor::spawn(n, Node { fail: false, me: i, log: log2 }, ()));
+                    verif::thread_unregister();
+                    ctl2.finish();
+                    match r {
+                        Ok((a, h)) => {
+                            let _ = tx.send(Some(a.get_cell()));
+                            let _ = rt.block_on(h);
+                        }
+                        Err(_) => {
+                            let _ = tx.send(None);
+                        }
+                    }
+                });
+                self.next = self.next.max(i + 1);
+                // named: first park inside `registry::register`; then (or at once) at `new.reg_pid`
+                let mut ph = ctl.wait_parked_timeout(Duration::from_secs(20));
+                if ph == Some(ThreadPhase::AtPoint("reg.entry")) {
+                    ctl.grant();
+                    ph = ctl.wait_parked_timeout(Duration::from_secs(20));
+                }
+                if ph == Some(ThreadPhase::AtPoint("new.reg_pid")) {
+                    self.win = Some(Win { i, ctl, rx, handle });
+                    "win".into()
+                } else {
+                    ctl.release();
+                    let _ = rx.recv_timeout(Duration::from_secs(20));
+                    let _ = handle.join();
+                    "dup".into()
+                }
+            }
+            "winb" => match self.win.take() {
+                Some(w) if w.i == ws[1].parse::<usize>().unwrap() => {
+                    w.ctl.release();
+                    match w.rx.recv_timeout(Duration::from_secs(20)) {
+                        Ok(Some(c)) => {
+                            // the actor lives on the helper's runtime: wait (real time) until it runs
+                            for _ in 0..2000 {
+                                if (c.get_status() as u8) >= 2 {
+                                    break;
+                                }
+                                std::thread::sleep(Duration::from_millis(1));
+                            }
+                            self.cells.insert(w.i, c);
+                            self.helpers.push(w.handle);
+                            "ok".into()
+                        }
+                        _ => "lost".into(),
+                    }
+                }
+                other => {
+                    self.win = other;
+                    "skip".into()
+                }
+            },
+            "winc" => {
+                if let Some(c) = self.cells.get(&ws[1].parse().unwrap()) {
+                    c.kill();
+                    for _ in 0..5000 {
+                        if (c.get_status() as u8) == 6 {
+                            break;
+                        }
+                        std::thread::sleep(Duration::from_millis(1));
+                    }
+                }
+                for h in std::mem::take(&mut self.helpers) {
+                    let _ = h.join();
+                }
+                "unit".into()
+            }
             "stop" => {
                 if let Some(c) = self.cells.get(&ws[1].parse().unwrap()) {
                     c.stop(None);
@@ -217,6 +324,32 @@ async fn gen_case(w: &mut World, log: &mut Log, st: &mut Stats, rng: &mut Rng, k
     for _ in 0..len {
         let nmx = |rng: &mut Rng| if rng.chance(1, 5) { "-".to_string() } else { rng.below(3).to_string() };
         let r = rng.below(100);
+        if r >= 92 {
+            // the window between the two registry operations of `new`, with one op of somebody else inside
+            let nmw = rng.below(3);
+            w.exec(log, st, &format!("wina {i} {nmw}")).await;
+            let wi = i;
+            i += 1;
+            let inner = match rng.below(4) {
+                0 => {
+                    i += 1;
+                    format!("spawn {} {nmw}", i - 1)
+                }
+                1 => {
+                    i += 1;
+                    format!("spawn {} {}", i - 1, (nmw + 1) % 3)
+                }
+                2 if !live.is_empty() => format!("kill {}", rng.pick(&live)),
+                _ => {
+                    i += 1;
+                    format!("mon {}", i - 1)
+                }
+            };
+            w.exec(log, st, &inner).await;
+            w.exec(log, st, &format!("winb {wi}")).await;
+            w.exec(log, st, &format!("winc {wi}")).await;
+            continue;
+        }
         let op = if r < 22 || live.is_empty() {
             let s = format!("spawn {i} {}", nmx(rng));
             live.push(i);
@@ -262,6 +395,9 @@ const FIXED: &[&[&str]] = &[
     &["mon 0", "mon 1", "monitor 0", "monitor 1", "spawn 2 2", "demonitor 1", "spawnfail 3 1", "stop 2", "stop 0", "spawn 4 -", "kill 4"],
     // a listener that exits is dropped from the listeners (demonitor is the first statement of the cleanup block)
     &["mon 0", "monitor 0", "spawn 1 -", "kill 0", "spawn 2 -", "stop 1", "stop 2"],
+    // inside the window of `new`: the name is taken (a same-name spawn fails), the pid is not there yet, no event yet
+    &["mon 0", "monitor 0", "wina 1 2", "spawn 2 2", "winb 1", "winc 1", "spawn 3 2"],
+    &["spawn 0 1", "wina 1 1", "winb 1", "wina 2 -", "mon 3", "winb 2", "winc 2"],
 ];
 
 fn main() {
